@@ -22,6 +22,7 @@ func init() {
 
 func runC17(p *eng.Prog, r *eng.Report, tier string) {
 	c := &cx{p, r, tier}
+	c17QuoteChain(c, "C17.10")
 	split := map[string]bool{"styling.Decoder.scan": true, "styling.Decoder.scanSpan": true, "styling.Decoder.scanPre": true}
 	nret := 0
 	fenceWait := 0
@@ -470,4 +471,89 @@ func clearBits(f *eng.Fn, list []ast.Stmt) int64 {
 		}
 	}
 	return out
+}
+
+// c17QuoteChain (C17.10): block quotes nest through a chain of decoders
+// (Decoder.quoteSplit). Two structural conditions of "styles are well
+// bracketed and do not leak from one block into the next":
+// (a) the per-line reset reaches every level of the chain: in scan, the store
+// that clears hasRun through a variable other than the receiver belongs to a
+// walk of the chain - that variable is advanced by `v = v.quoteSplit` (a reset
+// of "this level and the next" leaves the pre-block mask of a grandchild
+// readable through Style());
+// (b) a level that the input has left is dropped, not recycled: every store to
+// Decoder.quoteSplit is nil or a fresh decoder, and no field of another
+// decoder than the receiver is assigned except the two per-line flags (an
+// inner decoder kept "for the next quote" keeps its pre-block mask).
+func c17QuoteChain(c *cx, id string) {
+	f := c.fn(id, "styling", "(*Decoder).scan")
+	if f == nil {
+		return
+	}
+	g := f.Graph()
+	recv := f.Sig().Recv()
+	nReset, nStore := 0, 0
+	for _, w := range f.Writes() {
+		sel, ok := ast.Unparen(w.LHS).(*ast.SelectorExpr)
+		if !ok {
+			continue
+		}
+		cls, okc := f.FieldClass(sel)
+		if !okc || !strings.HasPrefix(cls, "styling.Decoder.") {
+			continue
+		}
+		field := strings.TrimPrefix(cls, "styling.Decoder.")
+		rootID, isID := ast.Unparen(sel.X).(*ast.Ident)
+		var root *types.Var
+		if isID {
+			root, _ = f.Info().ObjectOf(rootID).(*types.Var)
+		}
+		if field == "quoteSplit" {
+			nStore++
+			okv := false
+			if w.RHS != nil {
+				switch x := ast.Unparen(w.RHS).(type) {
+				case *ast.Ident:
+					okv = x.Name == "nil"
+				case *ast.UnaryExpr:
+					_, isLit := ast.Unparen(x.X).(*ast.CompositeLit)
+					okv = isLit
+				case *ast.CallExpr:
+					okv = f.CalleeID(x) == "styling.NewDecoder" || f.CalleeID(x) == "builtin.new"
+				}
+			}
+			c.r.Check(id, f, "store to Decoder.quoteSplit", "K: the inner decoder of a quote level is nil or freshly made (a level that was left is dropped whole)", w.Stmt.Pos(), okv && root == recv, "the inner decoder is kept or edited: its block state leaks into the next quote")
+			continue
+		}
+		if root == recv && isID {
+			continue
+		}
+		// a field of another decoder than the receiver
+		switch field {
+		case "quoteStarted", "hasRun":
+			if field != "hasRun" {
+				continue
+			}
+			nReset++
+			walks := false
+			if root != nil {
+				for _, d := range g.DefsOf(root) {
+					if d.RHS != nil && strings.HasSuffix(f.Norm(d.RHS, nil), ".quoteSplit") {
+						if rs, ok := ast.Unparen(d.RHS).(*ast.SelectorExpr); ok {
+							if rid, ok := ast.Unparen(rs.X).(*ast.Ident); ok && f.Info().ObjectOf(rid) == root {
+								walks = true
+							}
+						}
+					}
+				}
+			}
+			pt, _ := g.Where(w.Stmt)
+			onCycle := g.Reachable(g.After(pt), pt, nil, nil)
+			c.r.Check(id, f, "per-line reset of an inner level", "O: the reset of hasRun through a variable other than the receiver is part of a walk of the whole quote chain (v = v.quoteSplit, in a loop)", w.Stmt.Pos(), walks && onCycle, "only a fixed number of levels is reset: a deeper level keeps its mask and Style() reports it for the next line")
+		default:
+			c.r.Check(id, f, "field "+field+" of another decoder assigned", "W: scan assigns to the fields of its own level only (the per-line flags of the chain excepted)", w.Stmt.Pos(), false, "the inner decoder is edited in place instead of being dropped")
+		}
+	}
+	c.r.Floor(id, "per-line resets of inner levels in scan", nReset, 1)
+	c.r.Floor(id, "stores to Decoder.quoteSplit in scan", nStore, 2)
 }
